@@ -17,7 +17,7 @@ RULE = ("Hypothesis-generated histories (<=14 ops) over K (c constant, r readonl
         "exceptional exit, reads creating per-instance Parameter copies; oracle = identity-of-held-object model + constant "
         "flag invariants after every op. Non-trivial = a forbidden assignment attempted after a class-level set on the "
         "subclass, after an exceptionally-exited or nested edit_constant, or after a per-instance copy was created; "
-        "distinct = distinct case hash. Further ops: parameters made constant on one instance, references (also ones that yield nothing yet) assigned to a constant allow_refs parameter and their source changing later, callbacks assigning constants during param.trigger, raising watchers of a constant flag itself (what='constant') across edit_constant blocks, a second obj.__init__ with a rejected keyword, ParameterizedFunction.instance routes; side scenarios: an asynchronous reference pending on another parameter, Time.__call__(time_type=...) with a raising watcher.")
+        "distinct = distinct case hash. Further ops: parameters made constant on one instance, references (also ones that yield nothing yet) assigned to a constant allow_refs parameter and their source changing later, callbacks assigning constants during param.trigger, raising watchers of a constant flag itself (what='constant') across edit_constant blocks, a second obj.__init__ with a rejected keyword, ParameterizedFunction.instance routes; side scenarios: an asynchronous reference pending on another parameter, Time.__call__(time_type=...) with a raising watcher. Round 5: class-level routes update / deprecated set_default, instances made inside shared_parameters(), an ordinary parameter made constant inside an update() context that is then left.")
 ASSUMPTIONS = [
     "constant flags are never edited directly by the history (only edit_constant flips them)",
     "edit_constant(i) is read as unlocking instance i only: other instances stay locked while the block is open",
